@@ -57,6 +57,11 @@ Look beyond the functions named in the anchors - at the code they call and at th
   (b) one ROBUSTNESS or CONVENIENCE change: accepting a little more than before (stripping or normalising text, tolerating a missing or None value, catching a broader exception, a fallback default), or a friendlier error message that needs extra look-ups;
   (c) one MODERNISATION or CLEAN-UP: replacing a hand-written loop by a comprehension, any()/all(), dict/set operations, a standard-library helper (functools, itertools, inspect, typing, copy, contextlib), merging two similar branches, removing an apparently redundant check or copy.
 In each case the change must look equivalent to the old code on everything the tests and the documentation examples do. Look beyond the functions named in the anchors - at the code they call and at the rarely used kinds of classes, types and YAML features that the library's documentation says it supports.''',
+    7: '''Make each of them a change whose defect is NOT visible in the changed lines alone, each different from the others:
+  (a) one change with TWO COOPERATING SITES: a helper, utility or shared table gets a slightly different contract (what it returns for an edge case, whether it copies or shares, which exception it raises, whether it expects stripped / tagged / resolved input) and its obvious callers are adapted, but one less obvious caller or one less common path (JSON versus YAML, Path versus stream, enum or string-like classes versus ordinary classes, Union members versus direct attributes, the dashed-key path, _yatiml_extra) still relies on the old contract; each site looks fine on its own;
+  (b) one change in the handling of ABSENT, EMPTY or DEFAULT things: None versus missing, empty strings / lists / mappings / documents, zero and False, parameters with defaults (mutable defaults, defaults of another type than the annotation, _yatiml_defaults), Optional at unusual depths, classes without parameters, classes that inherit their __init__;
+  (c) one change that concerns TEXT: character classes (ASCII versus Unicode digits / letters / whitespace), case, line breaks (CR, NEL, LS/PS), quoting and escaping, number formatting (exponents, signs, underscores, leading zeros), string comparison versus value comparison, positions (line / column, 0- versus 1-based) and key names in messages.
+In each case the change must look equivalent to the old code on everything the tests and the documentation examples do. Look beyond the functions named in the anchors - at the code they call and at the rarely used kinds of classes, types and YAML features that the library's documentation says it supports.''',
 }
 
 
